@@ -17,6 +17,7 @@ import (
 	"cffverif/internal/gen"
 	"cffverif/internal/genlint"
 	"cffverif/internal/lib"
+	"cffverif/internal/regen"
 	"cffverif/internal/sched"
 	"cffverif/internal/variants"
 )
@@ -87,6 +88,8 @@ type engineSet struct {
 	gen   bool
 	lint  bool
 	lib   bool
+
+	noRegen bool // skip the Y front end (selftest of template-only mutants)
 }
 
 func parseEngines(s string) engineSet {
@@ -97,6 +100,9 @@ func parseEngines(s string) engineSet {
 			es.sched = true
 		case "gen":
 			es.gen = true
+		case "genx":
+			es.gen = true
+			es.noRegen = true
 		case "lint":
 			es.lint = true
 		case "lib":
@@ -164,6 +170,13 @@ func runEngines(es engineSet, tier string, sink *report.Sink) (errs []string) {
 			if err != nil {
 				errs = append(errs, "variants: "+err.Error())
 			} else {
+				if !es.noRegen {
+					ys, yerr := regenInstances(repo.Dir, tier, sink)
+					if yerr != nil {
+						errs = append(errs, "regen: "+yerr.Error())
+					}
+					ins = append(ins, ys...)
+				}
 				sink.SetFact("variants.expanded", len(ins))
 				if err := m.ReportDecisions(sink); err != nil {
 					errs = append(errs, "variants: "+err.Error())
@@ -173,6 +186,75 @@ func runEngines(es engineSet, tier string, sink *report.Sink) (errs []string) {
 		}
 	}
 	return errs
+}
+
+// regenInstances runs the Y front end: /verif/corpus always; /repo's own cff-tagged test corpora in the thorough tier.
+func regenInstances(repoDir, tier string, sink *report.Sink) ([]*gen.Instance, error) {
+	vd := verifDir()
+	corpora := []regen.Corpus{
+		{Name: "corpus", Src: filepath.Join(vd, "corpus"), Module: "example.com/corpus", Cmds: [][]string{{".", "./..."}}, VRules: true},
+		{Name: "corpus-sourcemap", Src: filepath.Join(vd, "corpus"), Module: "example.com/corpus", Cmds: [][]string{{".", "-genmode", "source-map", "./..."}}, VRules: tier == "thorough"},
+	}
+	if tier == "thorough" {
+		corpora = append(corpora,
+			regen.Corpus{Name: "corpus-autoinstr", Src: filepath.Join(vd, "corpus"), Module: "example.com/corpus", Cmds: [][]string{{".", "-auto-instrument", "./..."}}, VRules: false},
+			regen.Corpus{Name: "repo-tests", Src: filepath.Join(repoDir, "internal", "tests"), Cmds: [][]string{{".", "./..."}, {"modifier", "-genmode", "modifier", "./..."}}, VRules: false},
+			regen.Corpus{Name: "repo-examples", Src: filepath.Join(repoDir, "examples"), Cmds: [][]string{{".", "-genmode", "source-map", "./..."}}, VRules: false},
+		)
+	}
+	res, err := regen.Regenerate(repoDir, corpora)
+	if err != nil {
+		return nil, err
+	}
+	sink.SetFact("regen.generated_files", res.Files)
+	sink.SetFact("regen.packages", res.Packages)
+	sink.SetFact("regen.instances", len(res.Instances))
+	for _, c := range corpora {
+		failed := ""
+		for _, e := range res.GenErrs {
+			if strings.HasPrefix(e, c.Name+":") {
+				failed = e
+			}
+		}
+		sink.Check(failed == "", "V15", c.Name+"|cff succeeds on the corpus", "", "", "the generator built from the tree fails on a valid corpus: "+failed)
+	}
+	if len(res.PkgErrs) == 0 {
+		sink.OK("V15", "regenerated packages type-check", "", fmt.Sprintf("%d packages", res.Packages))
+	}
+	for p, es := range res.PkgErrs {
+		sink.Bad("V15", p+"|type-check of regenerated package", p, "generated code does not compile: "+es[0])
+	}
+	if len(res.Leftover) == 0 {
+		sink.OK("V15", "no directive call left in regenerated packages", "", "")
+	}
+	for _, l := range res.Leftover {
+		sink.Bad("V15", l+"|directive left unexpanded", l, "a call of a code-generation directive survives in the generated package: it panics at run time (\"not processed with cff\")")
+	}
+	// V19: outside directive sites the generated file is the source file
+	for _, fc := range res.Outside {
+		sink.Check(fc.Bad == "", "V19", fc.Key+"|identical to the source outside directive sites, imports only added", fc.Key, "", "the generated file differs from its source outside the directive call sites: "+fc.Bad)
+	}
+	// V20: base and source-map outputs are the same token stream (comments and line directives aside)
+	base, sm := res.Tokens["corpus"], res.Tokens["corpus-sourcemap"]
+	for rel, bt := range base {
+		st, ok := sm[rel]
+		msg := ""
+		switch {
+		case !ok:
+			msg = "no source-map output for this file"
+		case len(bt) != len(st):
+			msg = fmt.Sprintf("%d tokens in base mode, %d in source-map mode", len(bt), len(st))
+		default:
+			for i := range bt {
+				if bt[i] != st[i] {
+					msg = fmt.Sprintf("token %d: base `%s`, source-map `%s`", i, bt[i], st[i])
+					break
+				}
+			}
+		}
+		sink.Check(msg == "", "V20", "corpus/"+rel+"|base and source-map outputs are token-identical modulo comments", rel, fmt.Sprintf("%d tokens", len(bt)), "source-map mode emits different code than base mode: "+msg)
+	}
+	return res.Instances, nil
 }
 
 func cmdDump(args []string) int {
